@@ -1224,6 +1224,19 @@ func genEquality(c *GenCtx) {
 		"(x < y) || z", "(x > y) && z", "(x <= y) || (y <= x)", "[x, y, z][?!(@ < $.y)]", "[x, y, z][?!(@ >= $.x)]", "[x, y, z][?@ < $.y || @ >= $.y]",
 		"!(x < y) && !(x >= y)", "!!(x < y)", "!(!x)", "!(x && y)", "!(x || y)", "!(x == y) == (x != y)", "!(-x)", "!(x + y)", "[x, y, z][?!(@ == $.x)]",
 		"(x - x) || 'zero is true'", "(x - x) && 'zero is true'", "[x, y, z][?@ - @]", "!(x - x)", "!(x * `0`)", "(`1` - `1`) || 'z'", "[`0`, `1`, `-1`][?@ - `1`]"}
+	// all pairs of a pool of small containers that differ in one respect only: a member that is null on one side and
+	// absent (or under another name) on the other, member order, a trailing null, nil against empty, nesting
+	pool := []string{`{}`, `{"a":null}`, `{"b":null}`, `{"a":1}`, `{"a":null,"n":1}`, `{"b":null,"n":1}`, `{"n":1,"a":null}`, `{"n":1}`, `{"n":1,"a":1}`,
+		`{"a":{"x":null}}`, `{"a":{"y":null}}`, `{"a":{}}`, `{"a":[null]}`, `{"a":[]}`, `[]`, `[null]`, `[null,null]`, `[1]`, `[1,null]`, `[null,1]`, `[{}]`, `[{"a":null}]`,
+		`[{"b":null}]`, `[[]]`, `[[null]]`, `null`, `{"":null}`, `{"a":false}`, `{"a":""}`, `{"a":0}`, `{"#":"nilslice"}`}
+	for _, x := range pool {
+		for _, y := range pool {
+			doc := `{"x":` + x + `,"y":` + y + `,"z":[` + y + `]}`
+			for _, e := range []string{"x == y", "x != y", "contains(z, x)", "[x] == z", "{k: x} == {k: y}", "z[?@ == $.x]"} {
+				c.add("eq-pairs", e, doc)
+			}
+		}
+	}
 	for k := 0; k < n; k++ {
 		x := c.eqValue(3)
 		y := c.eqValue(3)
